@@ -55,7 +55,7 @@ AllOps == UNION {{Code(t)[i] : i \in 1..Len(Code(t))} : t \in Thr}
 Atoms == {i.o : i \in {j \in AllOps : j.op \in {"ld", "st"}}}
 Mtxs == {i.o : i \in {j \in AllOps : j.op \in {"lock", "unlock", "trylock", "tunlock"}}}
 Rws == {i.o : i \in {j \in AllOps : j.op \in {"read", "write", "tryread", "trywrite", "unlockr", "unlockw", "tunlockr", "tunlockw"}}}
-Ntfs == {i.o : i \in {j \in AllOps : j.op \in {"ntf", "join"}}}
+Ntfs == {i.o : i \in {j \in AllOps : j.op \in {"ntf", "join", "nwait", "notify"}}}
 \* Condvar::wait(cv, m) is three instructions here: "cvwait" cv (scheduling point on the condvar; enqueue + release m),
 \* "cvblock" (rt::block: the thread blocks, a second call of schedule), "lock" m (re-acquisition: an ordinary lock)
 Cvs == {i.o : i \in {j \in AllOps : j.op \in {"cvwait", "notify1", "notifyall"}}}         \* the Notify of a JoinHandle: notified once, by the ending thread
@@ -106,6 +106,7 @@ Ex0 == [pc |-> [t \in Thr |-> 1],
         closed |-> [c \in Chans |-> FALSE],                 \* receiver dropped
         cnt |-> [a \in Arcs |-> 1],                        \* strong count: main creates the Arc (and clones it for the others)
         ntfd |-> [j \in Ntfs |-> FALSE],                    \* Notify::notified (the JoinHandle's Notify: never spurious)
+        spurred |-> [j \in Ntfs |-> FALSE],                 \* Notify::did_spur (sync::Notify: one spurious return per object)
         tok |-> [t \in Thr |-> FALSE],                      \* park token
         parked |-> [t \in Thr |-> FALSE],
         ctl |-> <<>>,                                        \* exploration-control calls made since the last scheduling point
@@ -242,6 +243,23 @@ ApplyCtl(p, c) ==
                   [] Head(c) = "explore" -> ExploreState(p)
                   [] OTHER               -> SkipBranch(p), Tail(c))
 
+\* Arrive, with the one operation that consults the path before its scheduling point: sync::Notify::wait first takes the
+\* spurious decision (Path::branch_spurious, a branch of its own kind; once per object), a spurious return is a yield_now
+ArriveP(p, e0, a) ==
+  LET e == RunToBranch(e0, a) IN
+  IF e.pc[a] <= Len(Code(a)) /\ Code(a)[e.pc[a]].op = "nwait"
+  THEN LET ins   == Code(a)[e.pc[a]]
+           p0    == ApplyCtl(p, e.ctl)
+           ec    == [e EXCEPT !.ctl = <<>>]
+           waitb == [ec EXCEPT !.op[a] = ins, !.st[a] = IF ~e.ntfd[ins.o] THEN "blocked" ELSE @]
+       IN IF e.spurred[ins.o] THEN [p |-> p0, e |-> waitb]
+          ELSE LET b == BranchSpurious(p0) IN
+               \* the decision is part of the execution's decision sequence (-1: spurious, -2: not)
+               IF b.ret THEN [p |-> b.p, e |-> [ec EXCEPT !.spurred[ins.o] = TRUE, !.op[a] = NoOp, !.st[a] = "yield",
+                                                         !.yc[a] = @ + 1, !.pc[a] = @ + 1, !.sched = Append(@, -1)]]
+               ELSE [p |-> b.p, e |-> [waitb EXCEPT !.sched = Append(@, -2)]]
+  ELSE [p |-> p, e |-> Arrive(e0, a)]
+
 Schedule(pin, ein) ==
   LET p0   == ApplyCtl(pin, ein.ctl)
       e    == [ein EXCEPT !.ctl = <<>>]
@@ -273,7 +291,10 @@ Perform(e, t) ==
     [] ins.op = "ntf"     -> [e EXCEPT !.pc[t] = @ + 1, !.ntfd[ins.o] = TRUE,
                                        !.st = [u \in Thr |-> IF u # t /\ e.op[u].o = ins.o /\ e.st[u] \in {"blocked", "yield"}
                                                              THEN "runnable" ELSE e.st[u]]]
-    [] ins.op = "join"    -> [e EXCEPT !.pc[t] = @ + 1, !.ntfd[ins.o] = FALSE]
+    [] ins.op \in {"join", "nwait"} -> [e EXCEPT !.pc[t] = @ + 1, !.ntfd[ins.o] = FALSE]
+    [] ins.op = "notify"  -> [e EXCEPT !.pc[t] = @ + 1, !.ntfd[ins.o] = TRUE,
+                                       !.st = [u \in Thr |-> IF u # t /\ e.op[u].o = ins.o /\ e.st[u] \in {"blocked", "yield"}
+                                                             THEN "runnable" ELSE e.st[u]]]
     \* Condvar::wait after its scheduling point: enqueue, release the mutex (the one re-locked two instructions later)
     [] ins.op = "cvwait"  -> LET m == Code(t)[e.pc[t] + 2].o IN
                              [Release([e EXCEPT !.cvq[ins.o] = Append(@, t)], t, m) EXCEPT !.pc[t] = @ + 1]
@@ -313,6 +334,8 @@ Perform(e, t) ==
 
 (* --------------------------------------------------- reference semantics *)
 \* all outcomes of the program under full interleaving (sequentially consistent memory)
+\* a thread's first scheduling as a step of its own only matters where some thread can yield
+HasYield == \E i \in AllOps : i.op \in {"yield", "nwait"}
 CtlOps == {"stopx", "explore", "skipb"}
 HasCtl == \E i \in AllOps : i.op \in CtlOps
 \* operations that are no scheduling points in loom.  In a program that uses exploration controls, what "a decision
@@ -355,6 +378,8 @@ ExecRef(c, t) ==
     [] i.op = "notifyall" -> [s1 EXCEPT !.cvq[i.o] = <<>>]
     [] i.op = "ntf"     -> [s1 EXCEPT !.ntfd[i.o] = TRUE]
     [] i.op = "join"    -> [s1 EXCEPT !.ntfd[i.o] = FALSE]
+    [] i.op = "notify"  -> [s1 EXCEPT !.ntfd[i.o] = TRUE]
+    [] i.op = "nwait"   -> [s1 EXCEPT !.ntfd[i.o] = FALSE]                \* the real wake-up; the spurious return: RefFrom
     [] i.op = "park"    -> [s1 EXCEPT !.tok[t] = FALSE]
     [] i.op = "unpark"  -> [s1 EXCEPT !.tok[i.o] = TRUE]
     [] OTHER            -> s1
@@ -381,27 +406,49 @@ RefFrom(s) ==
       Cur(t) == RunCtl(s, t)                            \* after the leading control calls of t
       En == {t \in Live : LET c == Cur(t) IN
                              /\ (t = 1 \/ Spawned)
-                             /\ c.pc[t] <= Len(Code(t)) =>
+                             /\ (s.started[t] /\ c.pc[t] <= Len(Code(t))) =>
                                   LET i == Code(t)[c.pc[t]] IN
                                   /\ i.op = "lock" => s.holder[i.o] = 0
                                   /\ i.op = "join" => s.ntfd[i.o]
+                                  /\ i.op = "nwait" => (s.ntfd[i.o] \/ ~s.spurred[i.o])
                                   /\ i.op = "cvblock" => ~(\E cv \in Cvs : \E k \in 1..Len(s.cvq[cv]) : s.cvq[cv][k] = t)
                                   /\ i.op = "read" => s.rw[i.o].w = 0
                                   /\ i.op = "write" => (s.rw[i.o].w = 0 /\ s.rw[i.o].r = {})
                                   /\ i.op = "recv" => s.chq[i.o] # <<>>
                                   /\ i.op = "park" => s.tok[t]}
+      \* ... of which those that do not depend on a spurious return (possible once, never guaranteed): if there is
+      \* none, the program may deadlock here
+      EnS == {t \in En : LET c == Cur(t) IN
+                         (s.started[t] /\ c.pc[t] <= Len(Code(t))) => (Code(t)[c.pc[t]].op = "nwait" => s.ntfd[Code(t)[c.pc[t]].o])}
+      \* loom's reading of yield_now (and of a spurious Notify return, which is one): the thread gives way - if another
+      \* thread can take a step, one does before the yielder goes on
+      \* the first time a spawned thread is scheduled it only runs up to its first operation: a step of its own (it is
+      \* what lets a thread that has just yielded go on)
       StepOf(t) == LET c == Cur(t) IN
-                   [(IF c.pc[t] > Len(Code(t)) THEN c ELSE RunCtl(ExecRef(c, t), t)) EXCEPT !.last = t]
+                   IF ~s.started[t] THEN [c EXCEPT !.started[t] = TRUE, !.last = t, !.yld = 0] ELSE
+                   [(IF c.pc[t] > Len(Code(t)) THEN c ELSE RunCtl(ExecRef(c, t), t))
+                      EXCEPT !.last = t,
+                             !.yld = IF c.pc[t] <= Len(Code(t)) /\ Code(t)[c.pc[t]].op = "yield" THEN t ELSE 0]
+      \* Notify::wait may also return once per object without a notification (and without consuming one)
+      Succ(t) == LET c == Cur(t) IN
+                 IF s.started[t] /\ c.pc[t] <= Len(Code(t)) /\ Code(t)[c.pc[t]].op = "nwait"
+                 THEN LET o == Code(t)[c.pc[t]].o IN
+                      (IF s.ntfd[o] THEN {StepOf(t)} ELSE {})
+                      \cup (IF ~s.spurred[o] THEN {[RunCtl([c EXCEPT !.pc[t] = @ + 1, !.spurred[o] = TRUE], t) EXCEPT !.last = t, !.yld = t]} ELSE {})
+                 ELSE {StepOf(t)}
       \* between stop_exploring and explore (and after skip_branch, to the end) every decision is the default one:
       \* the thread that ran last goes on while it can, else the runnable thread with the lowest index;
       \* decisions outside such a region are all taken
-      Pick == IF s.frozen THEN (IF s.last \in En THEN {s.last} ELSE {SetMin(En)}) ELSE En
+      Others == En \ {s.yld}
+      Pick == IF s.frozen THEN (IF s.last \in En THEN {s.last} ELSE {SetMin(En)})
+              ELSE IF Others # {} THEN Others ELSE En
   IN IF Live = {} THEN {[end |-> "ok", regs |-> s.regs]}
-     ELSE IF En = {} THEN {[end |-> "deadlock", regs |-> <<>>]}
-     ELSE UNION {RefFrom(StepOf(t)) : t \in Pick}
+     ELSE (IF EnS = {} THEN {[end |-> "deadlock", regs |-> <<>>]} ELSE {})
+          \cup (IF En = {} THEN {} ELSE UNION {UNION {RefFrom(n) : n \in Succ(t)} : t \in Pick})
 RefOutcomes == RefFrom([pc |-> Ex0.pc, val |-> Ex0.val, holder |-> Ex0.holder, rw |-> Ex0.rw, regs |-> Ex0.regs,
-                        chq |-> Ex0.chq, closed |-> Ex0.closed, cnt |-> Ex0.cnt, tok |-> Ex0.tok, ntfd |-> Ex0.ntfd, cvq |-> Ex0.cvq,
-                        last |-> 1, frozen |-> FALSE, skipped |-> FALSE])
+                        chq |-> Ex0.chq, closed |-> Ex0.closed, cnt |-> Ex0.cnt, tok |-> Ex0.tok, ntfd |-> Ex0.ntfd, spurred |-> Ex0.spurred, cvq |-> Ex0.cvq,
+                        last |-> 1, frozen |-> FALSE, skipped |-> FALSE, yld |-> 0,
+                        started |-> [t \in Thr |-> t = 1 \/ ~HasYield]])
 NOps == LET RECURSIVE Sum(_) Sum(t) == IF t > N THEN 0 ELSE Len(Code(t)) + Sum(t + 1) IN Sum(1)
 
 (* ---------------------------------------------------------- the machine *)
@@ -421,8 +468,8 @@ NextBound ==
 
 Step ==
   /\ phase = "run"
-  /\ LET e1 == Arrive(ex, ex.active)
-         r  == Schedule(path, e1)
+  /\ LET a1 == ArriveP(path, ex, ex.active)
+         r  == Schedule(a1.p, a1.e)
      IN IF r.err # "" THEN /\ phase' = "panic" /\ UNCHANGED <<prog, refo, bi, path, ex, results, scheds, resB>>
         ELSE IF r.next # 0
         THEN /\ ex' = Perform(r.e, r.next) /\ path' = r.p
